@@ -168,7 +168,13 @@ def _history(name: str, root: str, lst: Listener) -> None:
         if lst.fail_fsync is None:
             raise
         lst.ops_raised.append(f"create:{type(e).__name__}")
-        t = create_table(root, schema())  # the fault fires once: the retry goes through
+        try:
+            t = create_table(root, schema())  # the fault fires once: the retry goes through
+        except Exception as e2:  # noqa - what the failed creation left behind cannot be opened or created any more
+            lst.rep.violation({"history": lst.hist.split("/")[0], "op": "create", "file_class": "pointer",
+                               "problem": "location_unusable_after_a_failed_creation"},
+                              {"first_error": repr(e)[:200], "retry_error": repr(e2)[:300], "trace_tail": lst.trace[-12:]})
+            return
     steps = HISTORIES[name]
     for st in steps:
         lst.op = st
